@@ -86,6 +86,23 @@ def _mon(args):
         return dict(path=path, viol=[], n=0, wall=0, err=str(e))
 
 
+def validate_files(paths, scratch):
+    """Run TraceMon on ndjson files already written. Returns (violations, lines, machinery errors)."""
+    paths = [p for p in paths if os.path.exists(p) and os.path.getsize(p) > 0]
+    if not paths:
+        return [], 0, []
+    ctx = mp.get_context('fork')
+    with ctx.Pool(min(16, len(paths))) as pool:
+        rs = pool.map(_mon, [(p, scratch) for p in paths])
+    viol, lines, errs = [], 0, []
+    for r in rs:
+        if r['err']:
+            errs.append(r['err'])
+        viol += r['viol']
+        lines += r['n']
+    return viol, lines, errs
+
+
 def validate_traces(outs, scratch, shards=16):
     """Write the observation streams as ndjson shards and run TraceMon (TLC) on each shard.
     Returns (violations [(tid,k,clause)], lines, machinery errors)."""
